@@ -11,6 +11,7 @@ import QV.Core.CFloat
 import QV.Model.Table
 import QV.Model.Sim
 import QV.Model.Channels
+import QV.Model.Superop
 open QV
 
 instance : Zero CF := ⟨CF.zero⟩
@@ -205,6 +206,28 @@ def handleGeneric (sc : Sc α) (cmd : String) : P String := do
       else
         let la : Array α := Array.ofFn (n := D * D * (D * D)) fun i => L (i.val / (D * D)) (i.val % (D * D))
         pure (shMat sc (D * D) (pauliLiouvilleOf sc.conj sc.I n (fun i j => la.getD (i * (D * D) + j) 0)))
+  | "LEXEC" =>
+    -- n col addId c0 terms rho : the left-hand side of T04_liouville_executes on the model,
+    -- `liouvilleOf (choiTerms n ch addId c0) · vec(ρ)` un-vectorised (entry (i,j) = position
+    -- `vecIdx i j`), with the index functions of QV/Model/Superop.lean
+    let n ← nextNat
+    let col ← nextNat
+    let addId ← nextNat
+    let c0 ← sc.rd
+    let terms ← rdTerms sc
+    let ρ ← rdRho sc n
+    let D := 2 ^ n
+    let o : QV.Superop.Order := if col == 1 then .column else .row
+    let ch : Chan α := { coeffs := terms.map (·.1), gates := terms.map (·.2), csum := 0 }
+    let ts := (choiTerms n ch (addId == 1) c0).map fun t =>
+      let a : Array α := Array.ofFn (n := D * D) fun i => t.2 (i.val / D) (i.val % D)
+      (t.1, fun i j => a.getD (i * D + j) 0)
+    let L := liouvilleOf sc.conj D (col == 1) ts
+    let rm : Array α := Array.ofFn (n := D * D) fun i => ρ (Lab.ofIndex n (i.val / D)) (Lab.ofIndex n (i.val % D))
+    let v : Array α := Array.ofFn (n := D * D) fun k =>
+      QV.Superop.vectorization o D n (fun a b => rm.getD (a * D + b) 0) k.val
+    let w := QV.Superop.matVec (D * D) L (fun k => v.getD k 0)
+    pure (shMat sc D (fun i j => w (QV.Superop.vecIdx o D n i j)))
   | c => pure s!"bad-op {c}"
 
 end generic
